@@ -152,3 +152,10 @@ template void w_use_depth3<w_depth3<boost::msm::back11::state_machine>>();
 template void w_use_depth3<w_depth3<boost::msm::backmp11::state_machine_adapter>>();
 template void w_use_depth3<w_depth3<boost::msm::backmp11::state_machine_adapter, boost::msm::backmp11::favor_compile_time>>();
 }
+// favor_compile_time: the submachines re-type boost::any events with the generated process_any_event
+using w_fct_mid = w_depth3<boost::msm::back::state_machine, boost::msm::back::favor_compile_time>::Mid;
+using w_fct_inner = w_depth3<boost::msm::back::state_machine, boost::msm::back::favor_compile_time>::Inner;
+using w_fct_root3 = w_depth3<boost::msm::back::state_machine, boost::msm::back::favor_compile_time>::Root3;
+BOOST_MSM_BACK_GENERATE_PROCESS_EVENT(w_fct_mid);
+BOOST_MSM_BACK_GENERATE_PROCESS_EVENT(w_fct_inner);
+BOOST_MSM_BACK_GENERATE_PROCESS_EVENT(w_fct_root3);
